@@ -58,7 +58,7 @@ template <class G> struct C04 {
         if (!R.mine()) continue;
         const lat::TAtom& ta = ts[j];
         std::string key = xa.key + "+" + ta.key;
-        if (!R.args.replay.empty() && R.args.replay.find("/" + key) == std::string::npos) continue;
+        if (!R.want(key)) continue;
         T t = vf::make_tan<T>(ta.t);
         ref::Vec tl = vf::toL(t.coeffs());
         ref::Mat Et = g.exp(tl);
@@ -111,7 +111,7 @@ template <class G> struct C04 {
         if (!R.mine()) continue;
         const lat::XAtom& ya = ys[j];
         std::string key = xa.key + "-" + ya.key;
-        if (!R.args.replay.empty() && R.args.replay.find("/" + key) == std::string::npos) continue;
+        if (!R.want(key)) continue;
         G Y = vf::make_elem<G>(ya.c);
         ref::Mat My = vf::Mof(Y);
         ref::Mat Myi = g.inv(My), Mxi = g.inv(Mx);
